@@ -140,3 +140,7 @@ def ctx_outer() -> None:
 
 lst = [1, 2, 3]
 very_long_name_for_pretty_output_and_columns: int = "this string makes the line long enough to be interesting"
+
+
+def same_message_twice_on_a_line() -> None:
+    both = undefined_name_zz + undefined_name_zz
